@@ -30,7 +30,9 @@
 
    Where the statement does not determine the outcome the allowed set has more than one element:
      * a non-real submission to congruence_comparer / between_comparer: not accepted, as a grade of zero or as any
-       student-facing error;
+       student-facing error; the same for a real value that arrives typed as a complex number (3 + 0*i, i^2 + 4)
+       and is NOT in the class -- whereas such a value that is in the class must be accepted, because membership
+       in the documented class does not depend on the type the value happens to have;
      * a congruent submission shifted by tolerance/1000 across a multiple of the modulus (target = 0 mod m): the
        documentation ("reduces modulo the modulus, then compares") and the statement disagree; both are allowed;
      * LinearComparer relations that hold in one direction only (student = a * expected + b with a = 0, or the
@@ -215,6 +217,7 @@ MessageModel(p, exp, got) ==
 
 (* ------------------------------------------------------------------ cases
    [kind, tol ("abs" = 1e-4 | "pct" = 0.001 % | "zero"), jit (-1 | 0 | 1), policy, evalerr,
+    typed (the submission is of complex type even where its value is real),
     P (per sample: sequence of parameter values), S (per sample: the submission), mode (entry), cfg (linear)]   *)
 Kinds == {"cong", "between", "eigen", "span", "phase", "entry", "linear", "equal"}
 HasPolicy(kind) == kind \notin {"cong", "between"}
@@ -224,7 +227,7 @@ ExpShape(c) == CASE c.kind \in {"cong", "between"} -> <<>>
                  [] OTHER -> c.P[1][1].shape
 WrongShape(c) == HasPolicy(c.kind) /\ c.S[1].shape # ExpShape(c)
 WellFormedCase(c) ==
-  /\ c.kind \in Kinds /\ c.tol \in {"abs", "pct", "zero"} /\ c.jit \in {-1, 0, 1}
+  /\ c.kind \in Kinds /\ c.tol \in {"abs", "pct", "zero"} /\ c.jit \in {-1, 0, 1} /\ c.typed \in BOOLEAN
   /\ Len(c.S) >= 1 /\ Len(c.P) = Len(c.S)
   /\ \A s \in 1..Len(c.S) : /\ WellFormedVal(c.S[s]) /\ c.S[s].shape = c.S[1].shape
                             /\ Len(c.P[s]) = Len(c.P[1])
@@ -259,7 +262,7 @@ Allowed(c) ==
   ELSE IF WrongShape(c) THEN {ShapeOutcome(c.policy)}
   ELSE CASE c.kind \in {"cong", "between"} ->
               IF ~AllReal(c) THEN {Grade(Zero), SFError}
-              ELSE IF ~AllMember(c) THEN {Grade(Zero)}
+              ELSE IF ~AllMember(c) THEN (IF c.typed THEN {Grade(Zero), SFError} ELSE {Grade(Zero)})
               ELSE IF c.kind = "cong" /\ WrapAmbiguous(c) THEN {Grade(One), Grade(Zero)}
               ELSE {Grade(One)}
          [] c.kind \in {"eigen", "span", "phase", "equal"} -> IF AllMember(c) THEN {Grade(One)} ELSE {Grade(Zero)}
@@ -271,7 +274,7 @@ Allowed(c) ==
 Relation(c) ==
   IF c.evalerr THEN "evalerr"
   ELSE IF WrongShape(c) THEN "wrongshape"
-  ELSE IF c.kind \in {"cong", "between"} /\ ~AllReal(c) THEN "silent"
+  ELSE IF c.kind \in {"cong", "between"} /\ (~AllReal(c) \/ (c.typed /\ ~AllMember(c))) THEN "silent"
   ELSE IF Cardinality(Allowed(c)) > 1 THEN "ambiguous"
   ELSE IF Allowed(c) = {Grade(One)} THEN "member"
   ELSE IF Allowed(c) = {Grade(Zero)} THEN "nonmember"
@@ -352,11 +355,21 @@ LinearGuard(c) ==
   IN /\ \A m \in Modes \ HoldsLoose(E, dE, S, dS) :
           Far(c, FitRes2(m, E, dE, S, dS), mag2) /\ Far(c, FitRes2(m, S, dS, E, dE), mag2)
      /\ SeqIsZero(S) \/ Far(c, Q(N2(S), dS * dS), mag2)
+(* A percentage of zero is zero: where the natural reference of a percentage tolerance vanishes (eigenvalue 0, target
+   congruent to 0) and under the tolerance 0, a member is ON the boundary of the tolerance band and only exact binary
+   arithmetic (power-of-two denominators) decides it the same way in floating point. *)
+RECURSIVE IsPow2(_)
+IsPow2(d) == d = 1 \/ (d % 2 = 0 /\ IsPow2(d \div 2))
+ExactArithmetic(c) == \A s \in 1..NSamples(c) : IsPow2(c.S[s].den) /\ \A i \in 1..Len(c.P[s]) : IsPow2(c.P[s][i].den)
+ZeroReference(c, s) == c.tol = "pct" /\ ((c.kind = "eigen" /\ VIsZero(c.P[s][2]))
+                                       \/ (c.kind = "cong" /\ Div(VRe(c.P[s][1]), VRe(c.P[s][2]))[2] = 1))
+OnBoundary(c) == c.tol = "zero" \/ \E s \in 1..NSamples(c) : ZeroReference(c, s)
 GuardOK(c) ==
   IF c.evalerr \/ WrongShape(c) THEN TRUE
-  ELSE IF c.kind = "entry" THEN EntryGuard(c)
-  ELSE IF c.kind = "linear" THEN LinearGuard(c)
-  ELSE \A s \in 1..NSamples(c) : IF MemberAt(c, s) THEN MemberClear(c, s) ELSE FarAt(c, s)
+  ELSE /\ OnBoundary(c) => ExactArithmetic(c)
+       /\ IF c.kind = "entry" THEN EntryGuard(c)
+          ELSE IF c.kind = "linear" THEN LinearGuard(c)
+          ELSE \A s \in 1..NSamples(c) : IF MemberAt(c, s) THEN MemberClear(c, s) ELSE FarAt(c, s)
 
 (* ------------------------------------------------------------------ laws (instantiated by the model instance) *)
 TokenOK(a) == /\ a.k \in {"grade", "sferror", "mismatch", "evalshape"}
